@@ -245,6 +245,23 @@ def run(chk):
             if li is not None and (li.lo > 0 or li.hi < intervals.LEN_MAX):
                 init[("l", i)] = li
                 desc.append("len(arg%d) in %s" % (i, li))
+            if b.local_ty(i).replace(" ", "") in ("core::option::Option<usize>", "Option<usize>"):
+                # an optional index: when every call site passes the result of an index search, the payload is an index into
+                # held data (< length <= isize::MAX)
+                all_found = bool(sites)
+                for cb, bb, t in sites:
+                    if i - 1 >= len(t["args"]):
+                        all_found = False
+                        break
+                    pl_ = flow.op_place(t["args"][i - 1])
+                    cdu = flow.DefUse(cb)
+                    srcs = ([pl_[0]] + list(cdu.trace_copy(pl_[0]))) if pl_ and pl_[1] == () else []
+                    if not any((cdu.single_def(l_) or (None,))[0] == "call" and names.call_is(cdu.single_def(l_)[4], *INDEX_FINDERS) for l_ in srcs):
+                        all_found = False
+                        break
+                if all_found:
+                    init[("i", i, str(("v", "Some")), "0")] = Iv(0, intervals.LEN_MAX - 1)
+                    desc.append("arg%d is the result of an index search" % i)
             if ii is not None and ii.lo != -INF and ii.hi != INF:
                 init[("i", i)] = ii
         return (init or None), ("; ".join(desc) + " at all %d call sites" % len(sites) if desc else None)
@@ -430,6 +447,11 @@ def run(chk):
                     og = flow.Origins(p)
                     at = flow.atoms_summary(og.of_operand(b, arg)) if arg else []
                     wit += "; size derives from %s — a short input declaring a huge length makes the decoder reserve that much" % at
+            elif kind == "vecop" and names.call_is(t, "slice::chunks", "slice::chunks_exact", "slice::windows", "Iterator::step_by") and len(t["args"]) == 2:
+                # these panic only for a size of zero
+                n_ = iv.iv_operand(st, t["args"][1])
+                ok = n_.lo >= 1
+                wit = "chunk / window / step size %s (must be non-zero)" % (n_,)
             elif kind in ("panic", "garray", "vecop"):
                 wit = "unconditional partial operation"
             if not ok and generic_table and (kind.startswith("assert") or kind == "index"):
